@@ -264,7 +264,10 @@ Definition rename_rp (c : cat) (db rp nn : Z) (d sgd : option Z) (mkdef : bool) 
       if negb (spec_valid d' sgd') then err c else
       let old := rp_name p in
       if rekey c then
-        let c1 := upd_pol c db old (fun q => pol_rename (pol_set_meta q d' sgd' igd' (rp_mark q)) nn nn) in
+        (* delete(RetentionPolicies, old); RetentionPolicies[nn] = rpi: an entry already stored under nn is overwritten. Only the
+           empty name gets that far (the default policy renamed to "" while a policy named "" exists): that policy is lost *)
+        let c0 := if nn =? old then c else set_pols c (filter (fun q => negb (is_pol db nn q)) (pols c)) in
+        let c1 := upd_pol c0 db old (fun q => pol_rename (pol_set_meta q d' sgd' igd' (rp_mark q)) nn nn) in
         ok (if mkdef || (db_default x =? rp_nm p) then set_default c1 db nn else c1)
       else
         let c1 := upd_pol c db old (fun q => pol_rename (pol_set_meta q d' sgd' igd' (rp_mark q)) old nn) in
